@@ -1,8 +1,157 @@
-(* C06 — exported theorems only. *)
+(* C06 — exported theorems only: each is closed by [exact] and followed by Print Assumptions. *)
 From Coq Require Import List ZArith Bool.
 From Verif Require Import C06.Model C06.Spec C06.Proofs.
+Import ListNotations.
 Open Scope Z_scope.
 
-Theorem c06_split_le : forall q m, 0 <= q -> 0 < m -> split 0 1 q m <= q.
-Proof. exact split_div_le. Qed.
-Print Assumptions c06_split_le.
+(* ---- CPU picking (takeCPUs) ---- *)
+(* a successful pick is duplicate free, taken from the free CPUs of the topology, never
+   smaller than requested, and exactly as large as requested unless the policy is FullPCPUs
+   and the request is not a whole number of cores *)
+Theorem c06_take_exact : forall c avail allocated n bind s,
+  NoDup (map cid (c_topo c)) ->
+  take_cpus c avail allocated n bind = Some s ->
+  NoDup s /\ incl s avail /\ incl s (map cid (c_topo c))
+  /\ Z.max 0 n <= lenZ s
+  /\ (aligned (c_topo c) n bind -> lenZ s = Z.max 0 n).
+Proof. exact take_cpus_spec. Qed.
+Print Assumptions c06_take_exact.
+
+(* without the alignment hypothesis exactness is false of the faithful model (and of the code) *)
+Theorem c06_take_exact_refuted : exists c avail allocated n bind s,
+  NoDup (map cid (c_topo c)) /\ take_cpus c avail allocated n bind = Some s /\ lenZ s <> n.
+Proof. exact take_exact_refuted_lemma. Qed.
+Print Assumptions c06_take_exact_refuted.
+
+(* the search never fails while enough CPUs of the topology are free (all policies) *)
+Theorem c06_take_complete : forall c avail allocated n bind,
+  NoDup (map cid (c_topo c)) ->
+  n <= lenZ (filter (fun x => memZ (cid x) avail) (c_topo c)) ->
+  take_cpus c avail allocated n bind <> None.
+Proof. exact take_cpus_complete. Qed.
+Print Assumptions c06_take_complete.
+
+(* takePreferredCPUs (reservation restore path): safe always, exact unless FullPCPUs *)
+Theorem c06_take_preferred : forall c avail preferred allocated n bind s,
+  NoDup (map cid (c_topo c)) ->
+  take_preferred c avail preferred allocated n bind = Some s ->
+  NoDup s /\ incl s avail /\ incl s (map cid (c_topo c))
+  /\ Z.max 0 n <= lenZ s
+  /\ ((bind =? 1) = false -> lenZ s = Z.max 0 n).
+Proof. exact take_preferred_spec. Qed.
+Print Assumptions c06_take_preferred.
+
+(* ---- policy verification ---- *)
+Theorem c06_fullpcpus_sound : forall T s,
+  NoDup (map cid T) -> uniform_topo T = true -> NoDup s -> incl s (map cid T) ->
+  determine_full T s = true -> cores_whole T s.
+Proof. exact full_sound. Qed.
+Print Assumptions c06_fullpcpus_sound.
+
+Theorem c06_spread_sound : forall T s,
+  NoDup (map cid T) -> NoDup s -> incl s (map cid T) ->
+  determine_spread T s = true -> cores_distinct T s.
+Proof. exact spread_sound. Qed.
+Print Assumptions c06_spread_sound.
+
+(* ---- allocateCPUSet (resourceManager.Allocate, CPU part) ---- *)
+Theorem c06_allocate_cpuset : forall o st rq numa s,
+  NoDup (map cid (o_topo o)) ->
+  allocate_cpuset o st rq numa = Some s ->
+  NoDup s /\ incl s (avail_of o st)
+  /\ Z.max 0 (r_n rq) <= lenZ s
+  /\ (numa <> [] \/ aligned (o_topo o) (r_n rq) (r_bind rq) -> lenZ s = Z.max 0 (r_n rq))
+  /\ (r_required rq = true -> satisfied_policy (r_bind rq) (o_topo o) s = true).
+Proof. exact allocate_cpuset_spec. Qed.
+Print Assumptions c06_allocate_cpuset.
+
+(* ---- histories of Allocate+Update / Release / Update ---- *)
+(* the ledger equals the from-scratch sum over the live pods after every history *)
+Theorem c06_ledger : forall o ops,
+  wf_opts o -> Forall op_wf ops -> ledger_exact (run o ops).
+Proof. exact hist_ledger_exact. Qed.
+Print Assumptions c06_ledger.
+
+(* no CPU is held by more pods than the sharing limit, however allocations and releases
+   interleave (default limit 1: the live pods' CPU sets are pairwise disjoint) *)
+Theorem c06_sharing_limit : forall o ops,
+  wf_opts o -> Forall op_sched ops -> within_limit (o_maxref o) (run o ops).
+Proof. exact hist_limit. Qed.
+Print Assumptions c06_sharing_limit.
+
+Theorem c06_numa_capacity : forall o ops,
+  wf_opts o -> nres_nonneg (o_cap o) -> Forall op_sched ops -> within_capacity o (run o ops).
+Proof. exact hist_capacity. Qed.
+Print Assumptions c06_numa_capacity.
+
+(* ---- NUMA split ---- *)
+Theorem c06_numa_exact : forall kind k req hav got,
+  distribute1 kind k req hav = (got, 0) ->
+  sumZ (map snd got) = req
+  /\ (forall nd x, In (nd, x) got -> exists av, In (nd, av) hav /\ x <= av)
+  /\ (0 <= k -> qinv kind req -> (forall p, In p hav -> 0 <= snd p) ->
+      forall nd x, In (nd, x) got -> 0 <= x).
+Proof. exact numa_exact_lemma. Qed.
+Print Assumptions c06_numa_exact.
+
+(* a freely divisible resource is placed whenever the hinted nodes together have enough,
+   whichever node ids the hint names *)
+Theorem c06_numa_complete : forall k req hav,
+  0 <= req -> (forall p, In p hav -> 0 <= snd p) -> req <= sumZ (map snd hav) ->
+  snd (distribute1 0 k req hav) = 0.
+Proof. exact numa_complete_lemma. Qed.
+Print Assumptions c06_numa_complete.
+
+(* Allocate with a NUMA hint: exactly the requested amount of every requested resource, only on
+   hinted nodes, never more from a node than it had free *)
+Theorem c06_allocate_numa_exact : forall o st rq p hint,
+  r_hint rq = Some hint -> NoDup hint ->
+  allocate o st rq = Some p ->
+  (0 <= r_cpu rq -> fst (sum_res (p_numa p)) = r_cpu rq)
+  /\ (0 <= r_mem rq -> snd (sum_res (p_numa p)) = r_mem rq)
+  /\ (forall e, In e (p_numa p) -> In (fst e) hint)
+  /\ (forall nd, rle (numa_sum (p_numa p) nd) (lookup_res nd (numa_avail o st))).
+Proof. exact allocate_numa_exact. Qed.
+Print Assumptions c06_allocate_numa_exact.
+
+(* ---- the decision procedure run on the implementation's observables is sound ---- *)
+Theorem c06_take_code_sound : forall T avail n s sf ss,
+  take_code T avail n (Some s) sf ss = 0 ->
+  take_ok avail n s
+  /\ (sf = true -> uniform_topo T = true -> cores_whole T s)
+  /\ (ss = true -> cores_distinct T s).
+Proof. exact take_code_sound. Qed.
+Print Assumptions c06_take_code_sound.
+
+Theorem c06_take_preferred_complete : forall c avail preferred allocated n bind,
+  NoDup (map cid (c_topo c)) -> NoDup avail -> incl avail (map cid (c_topo c)) ->
+  n <= lenZ avail ->
+  take_preferred c avail preferred allocated n bind <> None.
+Proof. exact take_preferred_complete. Qed.
+Print Assumptions c06_take_preferred_complete.
+
+(* stream "take": the decision procedure holds of the model's own observable, i.e.
+   prop_case inp (run_case inp) = 0, for every well-formed input with a policy other than
+   FullPCPUs (for FullPCPUs see c06_take_exact / c06_take_exact_refuted) *)
+Theorem c06_take_model_passes : forall c avail preferred allocated n bind,
+  NoDup (map cid (c_topo c)) -> NoDup avail -> incl avail (map cid (c_topo c)) ->
+  (bind =? 1) = false ->
+  match take_preferred c avail preferred allocated n bind with
+  | Some s => take_code (c_topo c) avail n (Some (sortZ s))
+                        (determine_full (c_topo c) s) (determine_spread (c_topo c) s) = 0
+  | None => take_code (c_topo c) avail n None false false = 0
+  end.
+Proof. exact take_model_passes. Qed.
+Print Assumptions c06_take_model_passes.
+
+(* ---- non-vacuity ---- *)
+Example c06_ex_opts : wf_opts (mkO overshoot_topo 1 [] true [(0, (8000, 64)); (1, (8000, 64)); (2, (8000, 64))]).
+Proof. exact ex_opts_wf. Qed.
+Example c06_ex_hist :
+  Forall op_sched [OAlloc (mkR 1 4 true 1 false 0 (Some [0; 1]) 4000 8); ORelease 1;
+                   OAlloc (mkR 2 2 true 2 true 1 None 2000 0)].
+Proof. exact ex_hist_sched. Qed.
+Example c06_ex_aligned : aligned overshoot_topo 8 1 /\ uniform_topo overshoot_topo = true /\ wf_topo overshoot_topo = true.
+Proof. exact ex_aligned. Qed.
+Example c06_ex_d1 : distribute1 0 1 8 [(1, 10); (2, 2)] = ([(2, 2); (1, 6)], 0).
+Proof. exact ex_d1. Qed.
